@@ -609,4 +609,382 @@ theorem runHistory_append (E : Env) (cfg : Cfg) (h1 h2 : List Call) (st : St) :
   | nil => rfl
   | cons c cs ih => simp only [List.cons_append, runHistory]; exact ih _
 
+
+/-! ## dotted-quad rendering is injective on 32-bit values -/
+
+theorem splitOn_no_sep (sep : Char) (s : Str) (h : sep ∉ s) : splitOn sep s = [s] := by
+  induction s with
+  | nil => rfl
+  | cons c cs ih =>
+    simp only [List.mem_cons, not_or] at h
+    have hne : ¬ c = sep := fun e => h.1 e.symm
+    simp only [splitOn, if_neg hne, ih h.2]
+
+theorem splitOn_append (sep : Char) (a rest : Str) (h : sep ∉ a) :
+    splitOn sep (a ++ sep :: rest) = a :: splitOn sep rest := by
+  induction a with
+  | nil => simp [splitOn]
+  | cons c cs ih =>
+    simp only [List.mem_cons, not_or] at h
+    have hne : ¬ c = sep := fun e => h.1 e.symm
+    simp only [List.cons_append, splitOn, if_neg hne, ih h.2]
+
+theorem dot_not_in_natStr (n : Nat) : '.' ∉ natStr n := by
+  intro h
+  have := Nat.isDigit_of_mem_toDigits (b := 10) (by decide) (by decide) h
+  simp at this
+
+theorem digitsVal_natStr (n : Nat) : digitsVal (natStr n) = n := by
+  have := @Nat.ofDigitChars_ten_toDigits n
+  simpa [digitsVal, natStr, Nat.ofDigitChars] using this
+
+/-- `inet_aton ∘ inet_ntoa = id` on 32-bit values: the rendering of issued addresses loses nothing -/
+theorem ip2int_int2ip (n : Nat) (h : n < 2 ^ 32) : ip2int (int2ip n) = n := by
+  unfold ip2int int2ip
+  simp only [join]
+  rw [List.append_assoc, List.singleton_append, splitOn_append _ _ _ (dot_not_in_natStr _),
+      List.append_assoc, List.singleton_append, splitOn_append _ _ _ (dot_not_in_natStr _),
+      List.append_assoc, List.singleton_append, splitOn_append _ _ _ (dot_not_in_natStr _),
+      splitOn_no_sep _ _ (dot_not_in_natStr _)]
+  simp only [List.foldl_cons, List.foldl_nil, digitsVal_natStr]
+  simp only [Nat.reducePow] at h ⊢
+  omega
+
+theorem int2ip_inj (a b : Nat) (ha : a < 2 ^ 32) (hb : b < 2 ^ 32) (h : int2ip a = int2ip b) : a = b := by
+  rw [← ip2int_int2ip a ha, ← ip2int_int2ip b hb, h]
+
+
+/-! ## helpers for the C09 statements: pairs in duplicate-free lists, provenance segments -/
+
+theorem dictGet_of_mem {α β : Type} [BEq α] [LawfulBEq α] (db : List (α × β)) (k : α) (v : β)
+    (hn : (db.map Prod.fst).Nodup) (h : (k, v) ∈ db) : dictGet db k = some v := by
+  induction db with
+  | nil => cases h
+  | cons p rest ih =>
+    obtain ⟨k', v'⟩ := p
+    simp only [List.map_cons, List.nodup_cons] at hn
+    rcases List.mem_cons.mp h with e | hm
+    · cases e; simp [dictGet]
+    · have hne : (k' == k) = false := by
+        apply beq_false_of_ne; intro e; subst e
+        exact hn.1 (List.mem_map.mpr ⟨_, hm, rfl⟩)
+      simp [dictGet, hne, ih hn.2 hm]
+
+
+theorem nodup_pair {α β : Type} (db : List (α × β)) (hk : (db.map Prod.fst).Nodup) (p q : α × β)
+    (hp : p ∈ db) (hq : q ∈ db) (h : p.1 = q.1) : p = q := by
+  induction db with
+  | nil => cases hp
+  | cons x rest ih =>
+    simp only [List.map_cons, List.nodup_cons] at hk
+    rcases List.mem_cons.mp hp with e1 | m1 <;> rcases List.mem_cons.mp hq with e2 | m2
+    · rw [e1, e2]
+    · exfalso; apply hk.1; rw [← e1, h]; exact List.mem_map.mpr ⟨_, m2, rfl⟩
+    · exfalso; apply hk.1; rw [← e2, ← h]; exact List.mem_map.mpr ⟨_, m1, rfl⟩
+    · exact ih hk.2 m1 m2
+
+theorem nodup_pair_snd {α β : Type} (db : List (α × β)) (hk : (db.map Prod.snd).Nodup) (p q : α × β)
+    (hp : p ∈ db) (hq : q ∈ db) (h : p.2 = q.2) : p = q := by
+  induction db with
+  | nil => cases hp
+  | cons x rest ih =>
+    simp only [List.map_cons, List.nodup_cons] at hk
+    rcases List.mem_cons.mp hp with e1 | m1 <;> rcases List.mem_cons.mp hq with e2 | m2
+    · rw [e1, e2]
+    · exfalso; apply hk.1; rw [← e1, h]; exact List.mem_map.mpr ⟨_, m2, rfl⟩
+    · exfalso; apply hk.1; rw [← e2, ← h]; exact List.mem_map.mpr ⟨_, m1, rfl⟩
+    · exact ih hk.2 m1 m2
+
+
+theorem hostKeys_nodup (E : Env) (cfg : Cfg) (hE : HexDigest E) (cnt : Nat) : (hostKeys E cfg cnt).Nodup := by
+  unfold hostKeys
+  rw [List.nodup_append]
+  refine ⟨?_, ?_, ?_⟩
+  · rcases initKeys_cases E cfg with ⟨h, _⟩ | ⟨h, _⟩ <;> rw [h] <;> simp
+  · exact List.Pairwise.map _ (fun a b hab e => hab (counterName_inj e)) List.nodup_range'
+  · intro a ha b hb e
+    subst e
+    obtain ⟨n, _, e⟩ := List.mem_map.mp hb
+    rcases initKeys_cases E cfg with ⟨h, _⟩ | ⟨h, _⟩ <;> rw [h] at ha <;> simp at ha
+    rw [ha] at e
+    exact sysSub_ne_counter E cfg hE _ _ e.symm
+
+
+theorem ipStep_ignored (sl : St × Str) (ip : Str) (h : ipIgnore.contains ip = true) : ipStep sl ip = sl := by
+  unfold ipStep; rw [if_pos h]
+
+theorem ipStep_eq (sl : St × Str) (ip : Str) (h : ¬ ipIgnore.contains ip = true) :
+    ipStep sl ip = ({ sl.1 with ipDb := (ip2db sl.1.ipDb (ip2int ip)).1, foundIp := sl.1.foundIp ++ [ip2int ip] },
+      replace ip (int2ip (ip2db sl.1.ipDb (ip2int ip)).2) sl.2) := by
+  unfold ipStep; rw [if_neg h]
+
+
+/-- a line with provenance: an original character, or an original that was replaced by a substitute -/
+inductive Seg
+  | ch (c : Char)
+  | sub (orig shown : Str)
+deriving DecidableEq, Repr
+
+def render : List Seg → Str
+  | [] => []
+  | .ch c :: r => c :: render r
+  | .sub _ s :: r => s ++ render r
+
+def source : List Seg → Str
+  | [] => []
+  | .ch c :: r => c :: source r
+  | .sub o _ :: r => o ++ source r
+
+/-- the original characters at the head of a segment list, up to the first substituted segment -/
+def origRun : List Seg → Str
+  | .ch c :: r => c :: origRun r
+  | _ => []
+
+/-- `replace k v` that only ever matches ORIGINAL text (never inside or across a substitute) -/
+def replT (k v : Str) : Nat → List Seg → List Seg
+  | _, [] => []
+  | skip + 1, _ :: r => replT k v skip r
+  | 0, .sub o s :: r => .sub o s :: replT k v 0 r
+  | 0, .ch c :: r =>
+    if !k.isEmpty && k.isPrefixOf (origRun (.ch c :: r)) then .sub k v :: replT k v (k.length - 1) r
+    else .ch c :: replT k v 0 r
+
+def ipStepT (sl : St × List Seg) (ip : Str) : St × List Seg :=
+  if ipIgnore.contains ip then sl
+  else
+    let r := ip2db sl.1.ipDb (ip2int ip)
+    ({ sl.1 with ipDb := r.1, foundIp := sl.1.foundIp ++ [ip2int ip] }, replT ip (int2ip r.2) 0 sl.2)
+
+/-- no replacement of this line touches text inserted by an earlier replacement of the line: at every
+step the real `str.replace` and the provenance-respecting one produce the same text -/
+def noCollision : St × List Seg → List Str → Bool
+  | _, [] => true
+  | sl, ip :: rest =>
+    ((ipStep (sl.1, render sl.2) ip).2 == render (ipStepT sl ip).2) && noCollision (ipStepT sl ip) rest
+
+theorem ipStepT_ignored (sl : St × List Seg) (ip : Str) (h : ipIgnore.contains ip = true) : ipStepT sl ip = sl := by
+  unfold ipStepT; rw [if_pos h]
+
+theorem ipStepT_eq (sl : St × List Seg) (ip : Str) (h : ¬ ipIgnore.contains ip = true) :
+    ipStepT sl ip = ({ sl.1 with ipDb := (ip2db sl.1.ipDb (ip2int ip)).1, foundIp := sl.1.foundIp ++ [ip2int ip] },
+      replT ip (int2ip (ip2db sl.1.ipDb (ip2int ip)).2) 0 sl.2) := by
+  unfold ipStepT; rw [if_neg h]
+
+theorem ipStepT_fst (sl : St × List Seg) (ip : Str) : (ipStepT sl ip).1 = (ipStep (sl.1, render sl.2) ip).1 := by
+  by_cases h : ipIgnore.contains ip = true
+  · rw [ipStepT_ignored _ _ h, ipStep_ignored _ _ h]
+  · rw [ipStepT_eq _ _ h, ipStep_eq _ _ h]
+
+theorem source_replT (k v : Str) : ∀ (segs : List Seg) (skip : Nat),
+    (skip = 0 → source (replT k v skip segs) = source segs) ∧
+    (∀ pre, skip > 0 → pre.length = skip → pre <+: origRun segs →
+      source (replT k v skip segs) = source (segs.drop skip)) := by
+  intro segs
+  induction segs with
+  | nil =>
+    intro skip
+    refine ⟨fun _ => by cases skip <;> simp [replT], ?_⟩
+    intro pre hs hl hp
+    simp [origRun] at hp; subst hp; simp at hl; omega
+  | cons x r ih =>
+    intro skip
+    constructor
+    · intro h0; subst h0
+      cases x with
+      | sub o s => simp [replT, source, (ih 0).1 rfl]
+      | ch c =>
+        simp only [replT]
+        split
+        · rename_i hm
+          simp only [Bool.and_eq_true, Bool.not_eq_true', List.isEmpty_eq_false_iff] at hm
+          obtain ⟨hne, hpre⟩ := hm
+          have hpre' : k <+: origRun (.ch c :: r) := List.isPrefixOf_iff_prefix.mp hpre
+          cases k with
+          | nil => exact absurd rfl hne
+          | cons k0 ks =>
+            simp only [origRun] at hpre'
+            have hh := List.cons_prefix_cons.mp hpre'
+            simp only [source, List.length_cons, Nat.add_sub_cancel]
+            cases hks : ks with
+            | nil =>
+              have := (ih 0).1 rfl
+              rw [hks] at this
+              simp only [List.length_nil]
+              rw [this, hh.1]; rfl
+            | cons k1 kt =>
+              rw [← hks]
+              have hpos : ks.length > 0 := by rw [hks]; simp
+              have := (ih ks.length).2 ks hpos rfl hh.2
+              rw [this, hh.1]
+              -- source of the dropped original run is `ks`
+              have key : ∀ (ks : Str) (r : List Seg), ks <+: origRun r → source r = ks ++ source (r.drop ks.length) := by
+                intro ks
+                induction ks with
+                | nil => intro r _; simp
+                | cons a as iha =>
+                  intro r hp
+                  cases r with
+                  | nil => simp [origRun] at hp
+                  | cons y ys =>
+                    cases y with
+                    | sub o s => simp [origRun] at hp
+                    | ch d =>
+                      simp only [origRun] at hp
+                      have h2 := List.cons_prefix_cons.mp hp
+                      simp [source, h2.1, iha ys h2.2]
+              rw [key ks r hh.2]; simp
+        · simp [source, (ih 0).1 rfl]
+    · intro pre hs hl hp
+      cases skip with
+      | zero => omega
+      | succ n =>
+        simp only [replT, List.drop_succ_cons]
+        cases x with
+        | sub o s => simp [origRun] at hp; subst hp; simp at hl
+        | ch c =>
+          cases pre with
+          | nil => simp at hl
+          | cons p ps =>
+            simp only [origRun] at hp
+            have h2 := List.cons_prefix_cons.mp hp
+            by_cases hn : n = 0
+            · subst hn; simp [(ih 0).1 rfl]
+            · exact (ih n).2 ps (by omega) (by simpa using hl) h2.2
+
+
+/-- every substituted segment carries an original that was handed to the database and the substitute the
+database holds for it -/
+def SubsOk (db : List (Nat × Nat)) (segs : List Seg) : Prop :=
+  ∀ o s, Seg.sub o s ∈ segs → ∃ k, (k, ip2int o) ∈ db ∧ s = int2ip k
+
+theorem mem_replT (k v : Str) (x : Seg) : ∀ (segs : List Seg) (skip : Nat),
+    x ∈ replT k v skip segs → x ∈ segs ∨ x = .sub k v := by
+  intro segs
+  induction segs with
+  | nil => intro skip h; cases skip <;> simp [replT] at h
+  | cons y r ih =>
+    intro skip h
+    cases skip with
+    | succ n =>
+      simp only [replT] at h
+      rcases ih n h with h1 | h1
+      · exact Or.inl (List.mem_cons_of_mem _ h1)
+      · exact Or.inr h1
+    | zero =>
+      cases y with
+      | sub o s =>
+        simp only [replT, List.mem_cons] at h
+        rcases h with h1 | h1
+        · exact Or.inl (by rw [h1]; simp)
+        · rcases ih 0 h1 with h2 | h2
+          · exact Or.inl (List.mem_cons_of_mem _ h2)
+          · exact Or.inr h2
+      | ch c =>
+        simp only [replT] at h
+        split at h
+        · simp only [List.mem_cons] at h
+          rcases h with h1 | h1
+          · exact Or.inr h1
+          · rcases ih _ h1 with h2 | h2
+            · exact Or.inl (List.mem_cons_of_mem _ h2)
+            · exact Or.inr h2
+        · simp only [List.mem_cons] at h
+          rcases h with h1 | h1
+          · exact Or.inl (by rw [h1]; simp)
+          · rcases ih 0 h1 with h2 | h2
+            · exact Or.inl (List.mem_cons_of_mem _ h2)
+            · exact Or.inr h2
+
+theorem ipStepT_subsOk (E : Env) (cfg : Cfg) (sl : St × List Seg) (ip : Str) (hi : Inv E cfg sl.1)
+    (hs : SubsOk sl.1.ipDb sl.2) : SubsOk (ipStepT sl ip).1.ipDb (ipStepT sl ip).2 := by
+  by_cases hc : ipIgnore.contains ip = true
+  · rw [ipStepT_ignored _ _ hc]; exact hs
+  · have ext := (ipStep_pres E cfg (sl.1, render sl.2) ip hi).2
+    rw [ipStep_eq _ _ hc] at ext
+    rw [ipStepT_eq _ _ hc]
+    intro o s hm
+    rcases mem_replT _ _ _ _ _ hm with h1 | h1
+    · obtain ⟨k, hk, e⟩ := hs o s h1
+      exact ⟨k, ext.ip.subset hk, e⟩
+    · cases h1
+      refine ⟨(ip2db sl.1.ipDb (ip2int ip)).2, ?_, rfl⟩
+      show ((ip2db sl.1.ipDb (ip2int ip)).2, ip2int ip) ∈ (ip2db sl.1.ipDb (ip2int ip)).1
+      cases hl : lastKeyOf sl.1.ipDb (ip2int ip) with
+      | some k => simp only [ip2db, hl]; exact lastKeyOf_some_mem _ _ _ hl
+      | none => rw [ip2db_new _ _ hi.ipKeys hl]; simp
+
+
+
+/-! ## helpers for the C10 statements: the bottom-up loop with explicit state threading -/
+
+/-- results aligned with the input lines, state threading explicit: line `i` is cleaned in the state left
+behind by the lines BELOW it (`i+1 …`), exactly as the bottom-up loop does -/
+def runUp (E : Env) (cfg : Cfg) (call : Call) : LSt → List Str → LSt × List (Option Str)
+  | s, [] => (s, [])
+  | s, l :: ls =>
+    let r := runUp E cfg call s ls
+    let x := cleanLine E cfg call r.1 l
+    (x.1, x.2 :: r.2)
+
+theorem lineLoop_append (E : Env) (cfg : Cfg) (call : Call) (a b : List Str) (s : LSt) (acc : List Str) :
+    lineLoop E cfg call s acc (a ++ b) =
+      lineLoop E cfg call (lineLoop E cfg call s acc a).1 (lineLoop E cfg call s acc a).2 b := by
+  induction a generalizing s acc with
+  | nil => rfl
+  | cons x xs ih => simp only [List.cons_append, lineLoop]; exact ih _ _
+
+theorem lineLoop_reverse (E : Env) (cfg : Cfg) (call : Call) (ls : List Str) (s : LSt) :
+    lineLoop E cfg call s [] ls.reverse =
+      ((runUp E cfg call s ls).1, ((runUp E cfg call s ls).2.filterMap id).reverse) := by
+  induction ls with
+  | nil => rfl
+  | cons l ls ih =>
+    rw [List.reverse_cons, lineLoop_append, ih]
+    simp only [lineLoop, runUp]
+    cases (cleanLine E cfg call (runUp E cfg call s ls).1 l).2 with
+    | none => simp
+    | some x => simp
+
+
+theorem runUp_get (E : Env) (cfg : Cfg) (call : Call) (s : LSt) (ls : List Str) (i : Nat) :
+    (runUp E cfg call s ls).2[i]? =
+      (ls[i]?).map (fun l => (cleanLine E cfg call (runUp E cfg call s (ls.drop (i + 1))).1 l).2) := by
+  induction ls generalizing i with
+  | nil => simp [runUp]
+  | cons l ls ih =>
+    cases i with
+    | zero => simp [runUp]
+    | succ n => simp only [runUp, List.getElem?_cons_succ, List.drop_succ_cons]; exact ih n
+
+theorem filterMap_indices {α : Type} (rs : List (Option α)) :
+    ∃ idx : List Nat, idx.Pairwise (· < ·) ∧ (∀ i ∈ idx, i < rs.length) ∧
+      idx.map (fun i => (rs[i]?).bind id) = (rs.filterMap id).map some := by
+  induction rs with
+  | nil => exact ⟨[], List.Pairwise.nil, by simp, by simp⟩
+  | cons r rs ih =>
+    obtain ⟨idx, hp, hb, hm⟩ := ih
+    have hp' : (idx.map (· + 1)).Pairwise (· < ·) := List.Pairwise.map _ (fun a b h => by omega) hp
+    have hm' : (idx.map (· + 1)).map (fun i => ((r :: rs)[i]?).bind id) = (rs.filterMap id).map some := by
+      rw [List.map_map, ← hm]; apply List.map_congr_left; intro a _; simp
+    have hb' : ∀ i ∈ idx.map (· + 1), i < (r :: rs).length := by
+      intro i hi
+      obtain ⟨a, ha, rfl⟩ := List.mem_map.mp hi
+      have := hb a ha; simp; omega
+    cases r with
+    | none => exact ⟨idx.map (· + 1), hp', hb', by simpa using hm'⟩
+    | some x =>
+      refine ⟨0 :: idx.map (· + 1), ?_, ?_, ?_⟩
+      · rw [List.pairwise_cons]
+        refine ⟨?_, hp'⟩
+        intro a ha
+        obtain ⟨b, _, rfl⟩ := List.mem_map.mp ha
+        omega
+      · intro i hi
+        rcases List.mem_cons.mp hi with rfl | h
+        · simp
+        · exact hb' i h
+      · simp only [List.map_cons]
+        rw [hm']; simp
+
+
 end IV.CleanState
